@@ -95,6 +95,7 @@ fn class<T, E>(r: &Result<Result<T, E>, String>) -> &'static str {
 pub fn observe(i: usize, text: &str, net: &NetworkDefinition) -> Value {
     let mut ks = Vec::new();
     let mut stages = Vec::new();
+    let mut ekinds: Vec<String> = Vec::new();
     let mut eline = 0usize;
     let mut panics: Vec<String> = Vec::new();
     for k in 0..4 {
@@ -120,6 +121,16 @@ pub fn observe(i: usize, text: &str, net: &NetworkDefinition) -> Value {
             Err(_) => "panic",
         };
         if let Ok(Err(e)) = &r1 {
+            // name of the error kind variant (coverage accounting only)
+            let dbg = match e {
+                CompileError::LexerError(x) => format!("L:{:?}", x.error_kind),
+                CompileError::ParserError(x) => format!("P:{:?}", x.error_kind),
+                CompileError::GeneratorError(x) => format!("G:{:?}", x.error_kind),
+            };
+            let name: String = dbg.chars().take_while(|c| c.is_ascii_alphanumeric() || *c == ':').collect();
+            if !ekinds.contains(&name) {
+                ekinds.push(name);
+            }
             let line = match e {
                 CompileError::LexerError(x) => x.span.start.line_number(),
                 CompileError::ParserError(x) => x.span.start.line_number(),
@@ -171,7 +182,7 @@ pub fn observe(i: usize, text: &str, net: &NetworkDefinition) -> Value {
         text.hash(&mut hs);
         format!("{:016x}", hs.finish())
     };
-    let mut ev = json!({"i": i, "k": ks, "st": stages, "el": eline, "h": h});
+    let mut ev = json!({"i": i, "k": ks, "st": stages, "el": eline, "h": h, "ek": ekinds});
     if !panics.is_empty() {
         // free-text detail for the human reading a replay file; not used by the decision
         ev["msg"] = json!(panics.iter().map(|m| m.chars().take(160).collect::<String>()).collect::<Vec<_>>());
@@ -254,9 +265,19 @@ fn split_tokens(s: &str) -> Vec<String> {
     v
 }
 
-fn mutant(src: &str, alphabet: &[String], rng: &mut StdRng) -> (String, &'static str) {
-    let which = rng.gen_range(0..10);
+/// `which` selects the mutation kind (the driver walks the kinds file by file, so that every
+/// file gets every one of the first kinds; the seed only drives positions and replacements)
+fn mutant(src: &str, alphabet: &[String], rng: &mut StdRng, which: usize) -> (String, &'static str) {
     match which {
+        10 | 11 => {
+            // CRLF + the FIRST / LAST token damaged (error on the first / last line)
+            let mut toks = split_tokens(src);
+            let idx: Vec<usize> = toks.iter().enumerate().filter(|(_, t)| !t.trim().is_empty()).map(|(i, _)| i).collect();
+            if let Some(j) = if which == 10 { idx.first() } else { idx.last() } {
+                toks[*j] = alphabet[rng.gen_range(0..alphabet.len())].clone();
+            }
+            (convert_endings(&toks.concat(), 0), if which == 10 { "crlf+first-token" } else { "crlf+last-token" })
+        }
         0 => (convert_endings(src, 0), "crlf"),
         1 => {
             // CRLF + one token-level damage somewhere (error lands on a later line)
@@ -382,7 +403,9 @@ pub fn run(mode: &str, args: &Args) {
                 // one independent generator per mutant so that `only=i` reproduces it
                 let mut rng = StdRng::seed_from_u64(seed.wrapping_mul(0x9E3779B97F4A7C15).wrapping_add(i as u64));
                 let f = i % srcs.len();
-                let (t, how) = mutant(&srcs[f], &alphabet, &mut rng);
+                // kinds in this order, one round of all files per kind
+                const ORDER: [usize; 12] = [0, 1, 11, 10, 2, 7, 3, 8, 4, 5, 6, 9];
+                let (t, how) = mutant(&srcs[f], &alphabet, &mut rng, ORDER[(i / srcs.len()) % 12]);
                 if let Some(o) = only {
                     if o == i {
                         println!("{}", json!({"i": i, "file": files[f], "how": how, "text": t}));
